@@ -763,6 +763,55 @@ func checkC19(ix *index, add addFn) {
 			}
 		}
 	}
+	// validation errors and calls before Connect: right sentinel, nothing written
+	connectAt := -1
+	for k, op := range sc.Ops {
+		if op.Kind == "connect" && op.Cli == 0 && ix.ops[k].inv >= 0 {
+			connectAt = ix.ops[k].inv
+		}
+	}
+	wrote := func(k int) bool {
+		op := sc.Ops[k]
+		for i := range ix.tr {
+			r := &ix.tr[i]
+			if (r.Kind == "tx" || r.Kind == "txfail") && r.P.Type == TPublish && op.Kind == "publish" && tokenOf(r.P.Pay) == op.Token {
+				return true
+			}
+		}
+		return false
+	}
+	for k := range sc.Ops {
+		op := &sc.Ops[k]
+		o := ix.ops[k]
+		if o.inv < 0 || o.ret < 0 || op.Cli != 0 {
+			continue
+		}
+		switch {
+		case op.Kind == "publish" && op.QoS > 2:
+			if !hasCls(o.cls, "invqos") {
+				add("sentinel", fmt.Sprintf("op %d: publish with QoS %d returned %q, want ErrInvalidQoS", k, op.QoS, o.err), map[string]string{"want": "invqos"})
+			}
+			if wrote(k) {
+				add("sentinel", fmt.Sprintf("op %d: publish with QoS %d was written to the transport", k, op.QoS), map[string]string{"want": "nothing-written"})
+			}
+		case op.Kind == "publish" && sc.Cfg.MaxPayloadLen > 0 && op.PayLen > sc.Cfg.MaxPayloadLen:
+			if !hasCls(o.cls, "paylen") {
+				add("sentinel", fmt.Sprintf("op %d: payload of %d bytes (maximum %d) returned %q, want ErrPayloadLenExceeded", k, op.PayLen, sc.Cfg.MaxPayloadLen, o.err), map[string]string{"want": "paylen"})
+			}
+			if wrote(k) {
+				add("sentinel", fmt.Sprintf("op %d: oversize payload was written to the transport", k), map[string]string{"want": "nothing-written"})
+			}
+		case connectAt >= 0 && o.inv < connectAt && o.ret < connectAt && blockingKind(op) && op.Kind != "connect" && op.Kind != "disconnect" && op.Kind != "retryhandle":
+			if !hasCls(o.cls, "notconn") {
+				add("sentinel", fmt.Sprintf("op %d (%s) before Connect returned %q, want ErrNotConnected", k, op.Kind, o.err), map[string]string{"want": "notconn"})
+			}
+			for _, s2 := range []string{"closed", "invpkt", "canceled", "deadline"} {
+				if hasCls(o.cls, s2) {
+					add("no-false-sentinel", fmt.Sprintf("op %d (%s) before Connect: errors.Is reports %s", k, op.Kind, s2), nil)
+				}
+			}
+		}
+	}
 	// Err() of the connection: io.EOF passed through, malformed input classified
 	for conn, e := range firstEnd {
 		var last *Rec
